@@ -1,4 +1,4 @@
-\* Sierra classes across the 0.14.1 switch with transactions, <= 4 blocks
+\* Sierra class across the 0.14.1 switch with one L1-handler transaction, <= 4 blocks
 \* measured: 658 413 distinct states, ~3 min on 4 workers
 CONSTANTS
   Users = {"c1"}
@@ -7,7 +7,7 @@ CONSTANTS
   MaxV = 1
   Cairo0 = {}
   Sierra = {"k1"}
-  TxIds = {"t1", "l1a"}
+  TxIds = {"l1a"}
   L1Txs = {"l1a"}
   MaxBlocks = 4
   MaxOps = 2
